@@ -365,6 +365,18 @@ def replay(pid, path):
             return 1
         print("replay: all oracles and monitors silent")
         return 0
+    if r.get("kind") in ("integrity", "probe"):
+        from props import PROPS as _P
+        bad = []
+        for extra in _P[pid].get("extra_checks", []):
+            bad += extra("quick", int(r.get("seed", 1)), new_stats())
+        for b in bad[:3]:
+            print(b.get("failures"))
+        if bad:
+            print(f"VIOLATION property={pid} replay={path}")
+            return 1
+        print("replay: no failure")
+        return 0
     if r.get("ops"):
         cls, fl = r.get("cfg", "w:s").split(":")
         exp = oracle_eval([r["ops"]])
@@ -499,7 +511,7 @@ def main(argv):
     known = load_known()
     real, other = [], []
     for d in disagreements:
-        if d["kind"] in ("hang", "crash", "generator-failed", "conc"):
+        if d["kind"] in ("hang", "crash", "generator-failed", "conc", "integrity", "probe"):
             real.append(d)
             continue
         d["monitor"] = monitor_flags(d["impl"]) if "impl" in d else []
@@ -526,8 +538,10 @@ def main(argv):
                 print(f"KNOWN-FINDING: property={pid} {k.get('what', '')}")
             known_hits = hit
         else:
-            how = ("controlled-scheduler run of the real crate: implementation-side monitor/oracle failed; replay = program + schedule"
-                   if d["kind"] == "conc" else "sequential differential: implementation vs the atomic-channel oracle")
+            how = {"conc": "controlled-scheduler run of the real crate: implementation-side monitor/oracle failed; replay = program + schedule",
+                   "integrity": "payload integrity run on the real crate (harness bin `integrity`): a received value differs from the value sent",
+                   "probe": "compiler probe: rustc's verdict on a Send/Sync obligation differs from the auto-trait model"}.get(
+                       d["kind"], "sequential differential: implementation vs the atomic-channel oracle")
             replay_path = write_replay(pid, seed, dict(d, property=pid, broken=[b["what"] for b in broken], how=how))
             print(f"VIOLATION property={pid} replay={replay_path}")
             exit_code = 1
